@@ -5,8 +5,9 @@
 
    Rust types:  LanguageViews(BTreeMap<u8, Vec<i64>>) -> list (Z * list Z) in BTreeMap
                   iteration order (ascending keys)
-                Option<KeepRaw<NonEmptySet<KeepRaw<PlutusData>>>> -> option (list Z): the datum
-                  bytes exactly as they were captured
+                Option<KeepRaw<NonEmptySet<KeepRaw<PlutusData>>>> -> option kdatums: every KeepRaw is
+                  (raw bytes held, inner value); raw = [] for a value built in memory
+                  (KeepRaw::from, or cleared by deref_mut / clear_raw)
                 Blake2b-256 is a Section variable in the proofs.
    Definitions only. *)
 From PV Require Import Lib.Base Cbor.Item Cbor.Enc Cbor.Dec Cbor.Api C07.Model.
@@ -76,24 +77,36 @@ Definition enc_redeemers (r : redeemers) : list Z :=
   | RMap l => e_map (len l) ++ concat (map enc_redeemer_kv l)
   end.
 
+(* ------------------------------------------------------------------ KeepRaw datums *)
+(* impl Encode for KeepRaw<T>: the bytes captured at decode time when there are any, otherwise the
+   encoding of the inner value *)
+Definition kr_pdata : Type := (list Z * pdata)%type.          (* KeepRaw<PlutusData> *)
+Definition kdatums : Type := (list Z * list kr_pdata)%type.   (* KeepRaw<NonEmptySet<KeepRaw<PlutusData>>> *)
+
+Definition enc_kr_pdata (x : kr_pdata) : list Z :=
+  if is_nil (fst x) then enc_pdata (snd x) else fst x.
+(* impl Encode for NonEmptySet<T>: tag 258, then the Vec *)
+Definition enc_datums (d : kdatums) : list Z :=
+  if is_nil (fst d) then e_tag 258 ++ e_vec enc_kr_pdata (snd d) else fst d.
+
 (* ------------------------------------------------------------------ ScriptData *)
 Record script_data : Type := mkScriptData {
   sd_redeemers : option redeemers;
-  sd_datums : option (list Z);
+  sd_datums : option kdatums;
   sd_language_views : option lviews
 }.
 
 (* the buffer ScriptData::hash feeds to Hasher::<256>::hash *)
 Definition script_data_preimage (sd : script_data) : list Z :=
   (match sd_redeemers sd with Some r => enc_redeemers r | None => [160] end) ++
-  (match sd_datums sd with Some d => d | None => [] end) ++
+  (match sd_datums sd with Some d => enc_datums d | None => [] end) ++   (* minicbor::encode(datums) *)
   (match sd_language_views sd with Some m => enc_language_views m | None => [160] end).
 
 Definition is_some {A} (o : option A) : bool := match o with Some _ => true | None => false end.
 
 (* ScriptData::build_for(witness, language_views_opt): witness.redeemer (the decoded value of the
-   KeepRaw), witness.plutus_data (KeepRaw: raw bytes) *)
-Definition build_for (w_redeemer : option redeemers) (w_plutus_data : option (list Z))
+   KeepRaw), witness.plutus_data (the KeepRaw itself, cloned) *)
+Definition build_for (w_redeemer : option redeemers) (w_plutus_data : option kdatums)
   (language_views_opt : option lviews) : option script_data :=
   if negb (is_some w_redeemer) && negb (is_some w_plutus_data) then None
   else Some (mkScriptData w_redeemer w_plutus_data
